@@ -44,6 +44,8 @@ class DerivedCoord(AbstractValue):
             return lambda: DerivedCoord(name)
         if name == "n":
             return self
+        if name == "coeffs":
+            return (self,)
         raise AnalysisError(f"attribute {name} of a derived coordinate")
 
     def v_compare(self, op, other, it):
